@@ -176,6 +176,11 @@ class Ctx:
     def violation(self, signature, detail, replay_obj=None):
         self.violations.append({"signature": signature, "detail": detail, "replay": replay_obj})
 
+    def vacuity(self, msg):
+        """A coverage target of the check itself was not reached. Reported as a machinery failure (exit 2), but
+        only when the run found no violation - a broken tree may be the reason the target was missed."""
+        self.vacuous = getattr(self, "vacuous", []) + [msg]
+
     def sample(self, obj, limit=6):
         if len(self.samples) < limit:
             self.samples.append(obj)
@@ -254,7 +259,11 @@ def finish(ctx, level="model_checking"):
     os.makedirs(os.path.join(VERIF, "evidence"), exist_ok=True)
     with open(os.path.join(VERIF, "evidence", f"{ctx.pid}.json"), "w") as f:
         json.dump(ev, f, indent=1, default=repr)
-    return 1 if new else 0
+    if new:
+        return 1
+    if getattr(ctx, "vacuous", None):
+        raise MachineryError("vacuity: " + "; ".join(ctx.vacuous))
+    return 0
 
 
 # ---------------------------------------------------------------- JSON for TLC
